@@ -45,9 +45,16 @@ Definition extract_entry (umask : N) (root : loc) (st : fs * log) (e : xentry) :
               match resolve_dir t root pieces with
               | inl _ => after_body st
               | inr _ =>
+                  (* create_dir_all: mkdir fails (ENOENT), the parent() -- which drops the trailing "." AND the
+                     component in front of it -- is created, then mkdir is retried: it cannot create "." but
+                     succeeds through is_dir() when the path now resolves (e.g. "a/b/../." after a/b was made) *)
                   match mkdir_all umask t root (removelast (no_curdir cs)) lg with
                   | (st1, Some (inr fe)) => (st1, XFs fe)
-                  | (st1, _) => (st1, XFs FsNoEnt)
+                  | (st1, _) =>
+                      match resolve_dir (fst st1) root pieces with
+                      | inl _ => after_body st1
+                      | inr _ => (st1, XFs FsNoEnt)
+                      end
                   end
               end
             else
